@@ -403,6 +403,42 @@ fn run_std(t: &mut Tape, cx: &mut Cx) -> Result<(), String> {
     Ok(())
 }
 
+/// xen build: the same region- and guest-level calls on emulated foreign / grant regions,
+/// mapped in advance and on demand.
+#[cfg(feature = "xen")]
+fn run_xen(t: &mut Tape, cx: &mut Cx) -> Result<(), String> {
+    use crate::xen_emul::{build as xbuild, gen_kind, live, reset};
+    use std::sync::Arc;
+    reset();
+    let n = 1 + t.idx(2);
+    let mut regs = Vec::new();
+    let mut lay = Layout { regs: vec![] };
+    for i in 0..n {
+        let kind = gen_kind(t);
+        let size = t.pick(&[1usize, 4096, 4097, 100, 2 * 4096]);
+        let base = 0x10_0000u64 * (i as u64 + 1);
+        let xr = xbuild::<()>(kind, base, size)?;
+        note!(cx, "{:?} region {:#x}+{:#x}", kind, base, size);
+        if kind == crate::xen_emul::Kind::GrantOnDemand {
+            cx.nt("on_demand_region");
+        }
+        lay.regs.push((base, size as u64));
+        regs.push(Arc::new(xr.region));
+    }
+    let m = vm_memory::GuestMemoryMmap::from_arc_regions(regs).map_err(|e| format!("{:?}", e))?;
+    let before = live();
+    for _ in 0..(1 + t.idx(3)) {
+        if t.flag() { region_calls(&m, &lay, t, cx)? } else { guest_calls(&m, &lay, t, cx)? }
+        ensure!(live() == before, "a temporary Xen window stayed mapped after the call: {:x?}", live());
+    }
+    Ok(())
+}
+
+#[cfg(not(feature = "xen"))]
+fn run_xen(_t: &mut Tape, _cx: &mut Cx) -> Result<(), String> {
+    Ok(())
+}
+
 /// Hand-written regression cases for repaired findings.
 fn run_regress(_t: &mut Tape, cx: &mut Cx) -> Result<(), String> {
     cx.nt("regression");
@@ -422,6 +458,7 @@ pub fn property() -> Property {
         assumptions: &["documented program-logic panics are excluded by construction: out-of-range ref_at/load/store indices, unchecked_* helpers, non-power-of-two alignments, enlarge overflow, zero-sized element copies (C18)", "real buffers are capped at 64 KiB; count/length parameters are not capped"],
         subchecks: vec![
             SubCheck { name: "calls", builds: &[Build::Std, Build::Plain, Build::Xen], kind: Kind::Random { quick: 200_000, thorough: 12_000_000, max_words: 48 }, run: run_std },
+            SubCheck { name: "xen_regions", builds: &[Build::Xen], kind: Kind::Random { quick: 20_000, thorough: 1_000_000, max_words: 48 }, run: run_xen },
             SubCheck { name: "regress", builds: &[Build::Std, Build::Plain], kind: Kind::Exhaustive { gen: gen_regress }, run: run_regress },
         ],
     }
